@@ -20,9 +20,25 @@ struct Obs {
     ok: bool,
 }
 
-fn run_one(bytes: &[u8], cap: usize, virtio: &Option<ChainSpec>, res: &MockRes, vu: bool, asynchronous: bool) -> Obs {
+/// C01's case plus the protocol version negotiated before the request (reply layouts and the
+/// negative-lookup rule depend on it)
+#[derive(Clone, Debug, serde::Serialize, serde::Deserialize)]
+pub struct Case20 {
+    #[serde(flatten)]
+    pub inner: Case,
+    #[serde(default)]
+    pub init_minor: Option<u32>,
+}
+
+fn run_one(bytes: &[u8], cap: usize, virtio: &Option<ChainSpec>, res: &MockRes, vu: bool, asynchronous: bool, init_minor: Option<u32>) -> Obs {
     let fs = Arc::new(MockFs::new(res.clone()));
     let srv = Server::new(fs.clone());
+    if let Some(m) = init_minor {
+        // the same (synchronous) INIT on both servers: only the request under test differs in path
+        let body = crate::codec::enc("fuse_init_in", &[("major", 7), ("minor", m as u64), ("max_readahead", 4096), ("flags", 0)]);
+        let init = crate::codec::request(&crate::codec::Hdr { opcode: crate::codec::op("INIT"), unique: 1, nodeid: 0, uid: 0, gid: 0, pid: 0 }, &body[..16]);
+        let _ = transport::serve_fusedev(&srv, &init, 256, false);
+    }
     match virtio {
         None => {
             // a truncated regular file stands in for /dev/fuse: the async writer uses pwrite(fd, .., 0)
@@ -74,7 +90,8 @@ fn run_one(bytes: &[u8], cap: usize, virtio: &Option<ChainSpec>, res: &MockRes, 
     }
 }
 
-pub fn run(cs: &Case) -> Outcome {
+pub fn run(cs20: &Case20) -> Outcome {
+    let cs = &cs20.inner;
     let mut out = Outcome::default();
     let bytes = materialise(&cs.src);
     let room = match &cs.src {
@@ -94,8 +111,14 @@ pub fn run(cs: &Case) -> Outcome {
         MockRes::Create { entry, fh, opts, .. } => MockRes::Create { entry: entry.clone(), fh: *fh, opts: *opts, passthrough: None },
         other => other.clone(),
     };
-    let a = run_one(&bytes, cap, &cs.virtio, &res, cs.vu, false);
-    let b = run_one(&bytes, cap, &cs.virtio, &res, cs.vu, true);
+    let a = run_one(&bytes, cap, &cs.virtio, &res, cs.vu, false, cs20.init_minor);
+    let b = run_one(&bytes, cap, &cs.virtio, &res, cs.vu, true, cs20.init_minor);
+    out.class(match cs20.init_minor {
+        None => "version:default",
+        Some(m) if m < 4 => "version:<7.4",
+        Some(m) if m < 9 => "version:7.4..7.8",
+        Some(_) => "version:>=7.9",
+    });
     let opcode = if bytes.len() >= 8 { u32::from_le_bytes([bytes[4], bytes[5], bytes[6], bytes[7]]) } else { u32::MAX };
     let opname = crate::reqgen::OPS.iter().find(|o| crate::codec::op(o.op) == opcode).map(|o| o.op).unwrap_or("?");
     out.class(format!("op:{}", opname));
@@ -129,8 +152,8 @@ pub fn run(cs: &Case) -> Outcome {
     out
 }
 
-fn strategy(tier: Tier) -> BoxedStrategy<Case> {
-    c01::strategy_pub(tier)
+fn strategy(tier: Tier) -> BoxedStrategy<Case20> {
+    (c01::strategy_pub(tier), prop_oneof![3 => Just(None), 2 => (0u32..40).prop_map(Some)]).prop_map(|(inner, init_minor)| Case20 { inner, init_minor }).boxed()
 }
 
 pub struct C20;
@@ -141,7 +164,7 @@ impl Prop for C20 {
     }
     fn meta(&self) -> Meta {
         Meta {
-            rule: "C01's byte generator (well-formed requests of all 47 opcodes, stacked mutations, random bytes) x reply capacities x transport (regular file standing in for /dev/fuse because the async writer uses pwrite(fd,..,0); random virtio chains) x scripted filesystem results; the same bytes go through handle_message and async_handle_message against fresh copies of one scripted filesystem that implements both traits from the same script; oracle: identical filesystem call logs (async methods identified with their sync counterparts) and identical reply bytes or identical absence of a reply; non-trivial = a handler reached the filesystem in at least one of the two; distinct = distinct serialized case",
+            rule: "C01's byte generator (well-formed requests of all 47 opcodes, stacked mutations, random bytes) x reply capacities x transport (regular file standing in for /dev/fuse because the async writer uses pwrite(fd,..,0); random virtio chains) x scripted filesystem results x protocol version negotiated beforehand (none, or INIT 7.0..7.39 sent to both servers); the same bytes go through handle_message and async_handle_message against fresh copies of one scripted filesystem that implements both traits from the same script; oracle: identical filesystem call logs (async methods identified with their sync counterparts) and identical reply bytes or identical absence of a reply; non-trivial = a handler reached the filesystem in at least one of the two; distinct = distinct serialized case",
             assumptions: vec![
                 "built as a second crate (harness-async) with fuse-backend-rs/async-io; futures are driven by the crate's own async_runtime".into(),
                 "fields the async filesystem API cannot express (the passthrough id of open/create) are scripted as absent".into(),
